@@ -46,6 +46,7 @@ pub fn prop() -> Prop {
         independent: &[],
         ref_sample: |_| 0,
         required_probes: &["fillings_exhaustive", "sub_message", "sub_hiding_own", "sub_binding_other", "sub_add_participant", "sub_remove_participant", "sub_rename_participant", "sub_group_key", "sub_claimed_identifier", "wrong_nonces_refused", "missing_entry_refused", "identity_commitment_rejected"],
+        prepare: None,
     }
 }
 
